@@ -2,6 +2,7 @@ import IrefVerif.Lemmas.Segs
 import IrefVerif.Lemmas.Nsegs
 import IrefVerif.Oracle
 import IrefVerif.Lemmas.PushList
+import IrefVerif.Lemmas.PopList
 import IrefVerif.Lemmas.ValidWF
 
 /-!
@@ -19,8 +20,11 @@ window offsets, `Vec` splices, `end` bookkeeping, the `anchored`/`follows_author
 before and after the window — scheme, authority, query, fragment — are never touched, the window
 is exactly the new path, and the new path is an explicit function of the old one
 (`path_handle_step`, `path_handle_history`).  List semantics of `push` in every context,
-shields included: `push_list` (`Lemmas/PushList.lean`).  The list semantics of `pop`, `clear`
-and the symbolic operations are judged on the implementation by the `pathmut` oracle
+shields included: `push_list` (`Lemmas/PushList.lean`); of `pop`: `pop_list`
+(`Lemmas/ScanBack.lean`: the backward scan finds the last `/`; `Lemmas/PopList.lean`: the three
+shapes of a path seen from the back, `last()` is the last element of the segment list, the view
+after `pop` realises `Oracle.listPop`); of `clear`: `clear_list`.  The list semantics of the
+symbolic operations and of `normalize` are judged on the implementation by the `pathmut` oracle
 (`Oracle.pmStep`, stated on `Oracle.listOp`), and the handle model is compared with the real
 handle after every step of every history.
 -/
@@ -152,6 +156,24 @@ theorem push_list (anch fa atStart : Bool) (v s : Text) (hs : cSlash ∉ s) :
     realises (pushView anch fa atStart v s) (segs v ++ [s]) = true ∨
     realises (pushView anch fa atStart v s) (alist v ++ [s]) = true :=
   pushView_realises anch fa atStart v s hs
+
+/-- **`pop` removes exactly the last segment** — or appends `..` on an empty relative path and
+after a `..`; an empty absolute path is left alone; the kept empty first segment goes behind
+`/./` — in every context -/
+theorem pop_list (anch fa atStart : Bool) (v : Text) (hp : PathText v) :
+    realises (popView anch fa atStart v) (Oracle.listPop (isAbs v || anch) (segs v)) = true ∨
+    realises (popView anch fa atStart v) (Oracle.listPop (isAbs v || anch) (alist v)) = true :=
+  popView_realises anch fa atStart v hp
+
+/-- **`clear` removes all segments and keeps the path absolute or relative** -/
+theorem clear_list (v : Text) : segs (clearView v) = [] ∧ isAbs (clearView v) = isAbs v := by
+  unfold clearView
+  cases h : isAbs v <;> simp [segs, stripRoot, isAbs]
+
+/-- `last()` of the model is the last element of the segment list (used by `pop` and by
+`remove_dot_segments`) -/
+theorem last_is_getLast (v : Text) (hp : PathText v) : Path.last v = (segs v).getLast? :=
+  last_eq_getLast v hp
 
 /-- non-vacuity: a history through one handle inside a URI, computed by the model -/
 example : (pathRun (Ref.path_mut [0x73, 0x3A, 0x2F, 0x2F, 0x68, 0x3F, 0x71])
